@@ -166,6 +166,12 @@ def drv_fault(scn, seed, plan, fault_mode):
     return tr
 
 
+def drv_pipeline(seed, local):
+    rng = random.Random(seed)
+    pscn = run_api.gen_pipeline(rng, local=local)
+    return run_api.run_pipeline(pscn, seed)
+
+
 def drv_resubmit(seed, gen_kw, nres):
     rng = random.Random(seed)
     scn = scenario.gen(rng, **gen_kw)
@@ -299,7 +305,7 @@ def drv_random_nodefaults(seed, gen_kw):
     return tr
 
 
-DRIVERS = {"resubmit_scn": drv_resubmit_scn, "resubmit": drv_resubmit, "resubmit_incomplete": drv_resubmit_incomplete, "hooks": drv_hooks, "cancel": drv_cancel, "random_cancel": drv_random_cancel, "fault": drv_fault, "random_nodefaults": drv_random_nodefaults, "cluster": drv_cluster, "results": drv_results, "random_hpc": drv_random_hpc, "scn": drv_scn, "model_replay": drv_model_replay,
+DRIVERS = {"pipeline": drv_pipeline, "resubmit_scn": drv_resubmit_scn, "resubmit": drv_resubmit, "resubmit_incomplete": drv_resubmit_incomplete, "hooks": drv_hooks, "cancel": drv_cancel, "random_cancel": drv_random_cancel, "fault": drv_fault, "random_nodefaults": drv_random_nodefaults, "cluster": drv_cluster, "results": drv_results, "random_hpc": drv_random_hpc, "scn": drv_scn, "model_replay": drv_model_replay,
            "batching_input": drv_batching_input, "dry_pair": drv_dry_pair, "first_round": drv_first_round}
 
 
@@ -439,13 +445,16 @@ class Ctx:
         self.judge(traces, "replays of JadeImpl behaviours")
         return res
 
-    def judge(self, traces, what="", ignore_other=False):
+    def judge(self, traces, what="", ignore_other=False, module="MonTrace", encoder=None, clauses=None):
         """Validate recorded traces against the monitor; collect violations of this property's clauses."""
         if not traces:
             return
-        verdicts, st = tracecheck.check_traces(traces, shards=NCPU)
+        verdicts, st = tracecheck.check_traces(traces, shards=NCPU, module=module, encoder=encoder)
         self.tlc_states += st["tlc_states"]
-        mine = self.clauses.get(self.prop, set())
+        mine = clauses if clauses is not None else self.clauses.get(self.prop, set())
+        if clauses is not None:
+            self.clauses[self.prop] = set(clauses)
+        encoder_ = encoder or tracecheck.encode_trace
         for tr, v in zip(traces, verdicts):
             self.traces += 1
             key = hashlib.sha1(json.dumps([tr["scn"], tr.get("moves")], sort_keys=True).encode()).hexdigest()
@@ -457,7 +466,7 @@ class Ctx:
             other = [c for c in v["viol"] if c not in mine]
             if other and not ignore_other:
                 self.notes.append(f"other-property clauses violated in a trace of {what}: {other}")
-            idx = tracecheck.encode_trace(tr, "x")[1] if bad else []
+            idx = encoder_(tr, "x")[1] if bad else []
             for c in bad:
                 pos = v["vpos"].get(c)
                 raw = idx[pos - 1] if pos and 0 < pos <= len(idx) else None
@@ -956,7 +965,28 @@ def check_C13(ctx):
                            "another host and from the same host)")
 
 
-CHECKS = {"C13": check_C13, "C16": check_C16, "C14": check_C14, "C01": check_C01, "C07": check_C07, "C08": check_C08, "C10": check_C10, "C11": check_C11, "C12": check_C12}
+def pipeline_clauses():
+    txt = open(os.path.join(VERIF, "spec", "PipelineMonitor.tla")).read()
+    body = txt[txt.index("C15Clauses =="):]
+    return set(re.findall(r'"([A-Za-z0-9_]+)"', body[:body.index("}")]))
+
+
+def check_C15(ctx):
+    q = ctx.tier == "quick"
+    tasks = [("pipeline", (s, None)) for s in seeds(ctx, 160 if q else 3000, 81)]
+    tasks += [("pipeline", (s, True)) for s in seeds(ctx, 40 if q else 500, 82)]
+    traces = run_tasks(tasks)
+    ctx.judge(traces, "pipelines of 1-4 stages (1-2 jobs each), local and HPC, random schedules, per-stage recovery",
+              module="PipeTrace", encoder=run_api.encode_pipeline, clauses=pipeline_clauses())
+    ctx.samples = [{"kind": "pipeline run", "pipeline": traces[0]["pscn"],
+                    "events": [e for e in run_api.encode_pipeline(traces[0], "0")[0]["ev"] if e["e"] != "activity"][:40]}]
+    return ctx.finish(rule="random pipelines: 1-4 stages with 1-2 jobs each (dependencies, failing jobs, a batch failing at sbatch so "
+                           "that a stage returns 1), batch size 1-2, max nodes, local and HPC mode, random schedules of the stages' "
+                           "batches and submitters, try-submit-jobs recovery on the current stage; validated by TLC against "
+                           "PipelineMonitor.tla")
+
+
+CHECKS = {"C15": check_C15, "C13": check_C13, "C16": check_C16, "C14": check_C14, "C01": check_C01, "C07": check_C07, "C08": check_C08, "C10": check_C10, "C11": check_C11, "C12": check_C12}
 for _i, _p in enumerate(["C03", "C04", "C05"]):
     CHECKS[_p] = make_protocol_check(10 + _i)
 CHECKS["C02"] = make_protocol_check(14, extra=histories_extra)     # dependency order also when jobs are rerun
